@@ -32,6 +32,7 @@ STD_MODELS = [
     "<Rev<Range<u64>> as Iterator>::next", "core::num::<impl u64>::leading_zeros",
     "core::slice::<impl [u64]>::is_empty", "<[u64; N] as Index<Range<usize>>>::index",
     "Arguments::from_str", "panic_fmt", "<u32 as Into<u64>>::into", "cmp::min/max::<uN>",
+    "u64::{is_power_of_two,trailing_zeros,count_ones,ilog2,wrapping_*,saturating_*,abs_diff,checked_add/sub}",
 ]
 
 
@@ -566,6 +567,47 @@ class Executor:
                 # scanning from least to most significant bit: the last set bit seen wins
                 r = z3.If(z3.Extract(i, i, x) == 1, z3.BitVecVal(w - 1 - i, 32), r)
             return self.named(r, "lz"), F, F
+        m = re.match(r"num::<impl (u64|u32|usize)>::(is_power_of_two|trailing_zeros|count_ones|ilog2|wrapping_add|wrapping_sub|saturating_add|saturating_sub|abs_diff|checked_add|checked_sub)", c)
+        if m:
+            op = m.group(2)
+            note(op)
+            x = argv[0]
+            w = x.size()
+            one, zero = z3.BitVecVal(1, w), z3.BitVecVal(0, w)
+            if op == "is_power_of_two":
+                return z3.And(x != zero, (x & (x - one)) == zero), F, F
+            if op == "trailing_zeros":
+                r = z3.BitVecVal(w, 32)
+                for i in reversed(range(w)):   # from most to least significant: the lowest set bit wins
+                    r = z3.If(z3.Extract(i, i, x) == 1, z3.BitVecVal(i, 32), r)
+                return self.named(r, "tz"), F, F
+            if op == "count_ones":
+                r = z3.BitVecVal(0, 32)
+                for i in range(w):
+                    r = r + z3.ZeroExt(31, z3.Extract(i, i, x))
+                return self.named(r, "pop"), F, F
+            if op == "ilog2":
+                r = z3.BitVecVal(0, 32)
+                for i in range(w):
+                    r = z3.If(z3.Extract(i, i, x) == 1, z3.BitVecVal(i, 32), r)
+                return self.named(r, "ilog2"), self.g_and(guard, x == zero), F
+            y = argv[1]
+            if op == "wrapping_add":
+                return x + y, F, F
+            if op == "wrapping_sub":
+                return x - y, F, F
+            if op == "saturating_add":
+                return z3.If(z3.ULT(x + y, x), z3.BitVecVal(-1, w), x + y), F, F
+            if op == "saturating_sub":
+                return z3.If(z3.ULT(x, y), zero, x - y), F, F
+            if op == "abs_diff":
+                return z3.If(z3.ULT(x, y), y - x, x - y), F, F
+            if op == "checked_add":
+                ok = z3.Not(z3.ULT(x + y, x))
+                return Rec("Option", {"disc": z3.If(ok, z3.BitVecVal(1, 64), z3.BitVecVal(0, 64)), "0": x + y}), F, F
+            if op == "checked_sub":
+                ok = z3.UGE(x, y)
+                return Rec("Option", {"disc": z3.If(ok, z3.BitVecVal(1, 64), z3.BitVecVal(0, 64)), "0": x - y}), F, F
         if c.startswith("slice::<impl [u64]>::is_empty"):
             note("<[u64]>::is_empty")
             sl = argv[0]
